@@ -39,6 +39,7 @@ type Harness struct {
 	maxPaths  int
 	ifconv    bool
 	needTier  int // run only when tier >= needTier
+	budgetS   int // wall-clock budget in seconds (0 = default for the tier)
 	bounds, outside, assumes, stubNotes []string
 }
 
@@ -121,6 +122,7 @@ type HarnessResult struct {
 	ChoiceShapes  map[string]bool
 	Wall          time.Duration
 	PathCapHit    bool
+	TimedOut      bool
 	candSeen      map[string]int
 	concreteEnd    pathEnd
 	concreteObs    []obsRec
@@ -180,6 +182,7 @@ type workQueue struct {
 	items   [][]uint64
 	active  int
 	closed  bool
+	timedOut bool
 	started int
 	cap     int
 }
@@ -191,6 +194,10 @@ func newQueue(cap int) *workQueue {
 }
 func (q *workQueue) push(p []uint64) {
 	q.mu.Lock()
+	if q.closed {
+		q.mu.Unlock()
+		return
+	}
 	q.items = append(q.items, p)
 	q.mu.Unlock()
 	q.cond.Signal()
@@ -292,6 +299,9 @@ func (st *State) branch(c *Term) bool {
 	}
 	if len(st.dec) >= st.h.maxDec {
 		panic(pathEnd{"limit", fmt.Sprintf("decision limit %d reached", st.h.maxDec)})
+	}
+	if st.q != nil && st.q.timedOut {
+		panic(pathEnd{"limit", "time budget reached"})
 	}
 	rt := st.check(c)
 	if rt == Unsat {
@@ -641,6 +651,27 @@ func (e *Engine) RunHarness(h *Harness, tier int, jobs int, pinned map[string]In
 	t0 := time.Now()
 	q := newQueue(h.maxPaths)
 	q.push(nil)
+	budget := h.budgetS
+	if budget == 0 {
+		budget = 420
+		if tier > 0 {
+			budget = 5400
+		}
+	}
+	stopTimer := make(chan struct{})
+	go func() {
+		select {
+		case <-time.After(time.Duration(budget) * time.Second):
+			q.mu.Lock()
+			q.items = nil
+			q.closed = true
+			q.timedOut = true
+			q.cond.Broadcast()
+			q.mu.Unlock()
+		case <-stopTimer:
+		}
+	}()
+	defer close(stopTimer)
 	var wg sync.WaitGroup
 	if pinned != nil {
 		jobs = 1
@@ -678,7 +709,8 @@ func (e *Engine) RunHarness(h *Harness, tier int, jobs int, pinned map[string]In
 		}()
 	}
 	wg.Wait()
-	res.PathCapHit = q.closed
+	res.PathCapHit = q.closed && !q.timedOut
+	res.TimedOut = q.timedOut
 	res.Wall = time.Since(t0)
 	return res
 }
